@@ -279,6 +279,10 @@ func (b *Box) Send(msgType uint8, topic []byte, msg []byte, to ...UniversalID) {
 		msgs.lock.RLock()
 		messages = msgs.messages
 		msgs.lock.RUnlock()
+		// The topic has started: it no longer counts against the senders that had messages buffered for it
+		for _, sender := range msgs.senders() {
+			delete(b.totalInFlightTopicsBySender[sender], string(topic))
+		}
 	}
 
 	defer func() {
